@@ -193,6 +193,11 @@ class Machine:
                 lowbits = 1 if thumb else 2
                 hi = env.bvvar('R_PC_hi', 32 - lowbits)
                 t = z3.Concat(hi, BV(0, lowbits)) if env.symbolic else BV(hi.as_long() << lowbits, 32)
+            elif opts.get('reg_values') == 'distinct':
+                # a fixed register file with pairwise distinct, bit-diverse values (decode checks: the word stays
+                # symbolic, a wrong register number / immediate / shift extraction still changes the result)
+                i = RNAMES.index(name)
+                t = BV(((0x9E3779B1 * (i + 1)) ^ (0x01000193 * (i + 7) << 3)) & 0xFFFFFFFC, 32)
             else:
                 t = env.bvvar('R_' + name, 32)
             pre.R[name] = t
@@ -267,18 +272,20 @@ class Machine:
         self.snap0 = self.snapshot()
 
     # ------------------------------------------------------------------
-    def place_instruction(self, word, length):
-        """store the instruction word (z3 term, 16 or 32 bits) at PC in the *initial* memory"""
-        pc = self.pre.R['PC']
+    def place_instruction(self, word, length, at=None, thumb=None):
+        """store the instruction word (z3 term, 16 or 32 bits) at PC (or at the address term `at`) in the
+        *initial* memory"""
+        pc = self.pre.R['PC'] if at is None else at
+        thumb = self.thumb if thumb is None else thumb
         if length == 16:
             bs = [P.bits(word, 7, 0), P.bits(word, 15, 8)]
-        elif self.thumb:
+        elif thumb:
             bs = [P.bits(word, 23, 16), P.bits(word, 31, 24), P.bits(word, 7, 0), P.bits(word, 15, 8)]
         else:
             bs = [P.bits(word, 8 * i + 7, 8 * i) for i in range(4)]
         arr = self.mem0
         for i, b in enumerate(bs):
-            arr = z3.Store(arr, pc + i, b)
+            arr = z3.Store(arr, z3.simplify(pc + i), b)
         self.mem0 = arr
         self.pre.mem = arr
         if self.env.symbolic:
